@@ -454,7 +454,7 @@ func c07Membership(cfg Config, res *Result) {
 		c := ct
 		pc := ProgCase{Src: "{{ " + src + " }}{% if " + src + " %}y{% else %}n{% endif %}", Ctx: &c, Label: "membership"}
 		cases = append(cases, pc)
-		wants[pc.Req()] = w + map[bool]string{true: "y", false: "n"}[want]
+		wants[pc.Key()] = w + map[bool]string{true: "y", false: "n"}[want]
 	}
 	for _, pool := range [][]lit{ints, strs} {
 		for _, item := range pool {
@@ -485,7 +485,7 @@ func c07Membership(cfg Config, res *Result) {
 	}
 	runProgCases(cfg, res, cases, "c07m", func(c ProgCase, o ImplOutcome) bool { return true },
 		func(c ProgCase, o ImplOutcome) *Finding {
-			want := wants[c.Req()]
+			want := wants[c.Key()]
 			if o.Class != "ok" || o.Out != want {
 				return &Finding{Kind: "oracle", Proj: "semantics", Sig: "c07-membership", Case: c.String(), Impl: o.Canon() + " " + o.Msg, Model: "ok " + hxb(want)}
 			}
@@ -529,7 +529,7 @@ func c07Edges(cfg Config, res *Result) {
 		c := ct
 		pc := ProgCase{Src: src, Ctx: &c, Label: "edges"}
 		cases = append(cases, pc)
-		wants[pc.Req()] = want
+		wants[pc.Key()] = want
 	}
 	ok := func(s string) string { return "ok " + hxb(s) }
 	for _, d := range []string{"0.5", "0.25", "q", "h", "(1 / 2.0)", "0.999", "(0 - 0.5)"} {
@@ -559,7 +559,7 @@ func c07Edges(cfg Config, res *Result) {
 	add("{% for v in [x+1, x-1] %}{{ v }};{% endfor %}", ok("4;2;"))
 	runProgCases(cfg, res, cases, "c07e", func(c ProgCase, o ImplOutcome) bool { return true },
 		func(c ProgCase, o ImplOutcome) *Finding {
-			want := wants[c.Req()]
+			want := wants[c.Key()]
 			if o.Canon() != want {
 				return &Finding{Kind: "oracle", Proj: "semantics", Sig: "c07-edge", Case: c.String(), Impl: o.Canon() + " " + o.Msg, Model: want}
 			}
@@ -766,12 +766,12 @@ func suiteC07(cfg Config, res *Result) {
 	res.hist(fmt.Sprintf("outside-fragment=%d", outside))
 	idx := map[string]int{}
 	for i, c := range cases {
-		idx[c.Req()] = i
+		idx[c.Key()] = i
 	}
 	runProgCases(cfg, res, cases, "c07", func(c ProgCase, o ImplOutcome) bool {
 		return strings.Count(c.Label, "ops=0") == 0 && strings.Count(c.Label, "ops=1") == 0
 	}, func(c ProgCase, o ImplOutcome) *Finding {
-		want := wants[idx[c.Req()]]
+		want := wants[idx[c.Key()]]
 		got := o.Canon()
 		if got != want {
 			return &Finding{Kind: "oracle", Proj: "semantics", Sig: "c07-semantics", Case: c.String(), Impl: got + " " + o.Msg, Model: "independent evaluator: " + want}
